@@ -28,7 +28,7 @@ if [ "$st" = "SIG" ]; then kill -SEGV $$; fi
 exit $st
 """
 EDITIONS = ["2015", "2018", "2021", "2024"]
-NAMES = ["alpha", "beta", "core_x", "zeta", "app", "lib2", "mid", "omega"]
+NAMES = ["alpha", "beta", "core_x", "zeta", "app", "lib2", "mid", "omega", "fmt", "fmt"]      # a package may be called like the subcommand
 UNKNOWN = ["nosuch", "aaa_missing", "zzz"]
 
 
@@ -82,7 +82,9 @@ def gen_ws(rnd):
     for k in range(ne):
         nmx = "util" if k == 0 else ("util" if (k == 1 and rnd.random() < 0.6) else "extra%d" % k)
         ts, build = gen_targets(rnd, None, False)
-        p = {"name": nmx, "dir": "ext/e%d" % k, "edition": rnd.choice(EDITIONS), "version": "0.%d.0" % (k + 1), "targets": ts, "build": build, "deps": [], "standalone": True}
+        # outside the workspace directory, or BELOW it without being a member (a vendored, excluded package)
+        edir = ("ext/e%d" % k) if rnd.random() < 0.6 else ("ws/vendor/e%d" % k)
+        p = {"name": nmx, "dir": edir, "edition": rnd.choice(EDITIONS), "version": "0.%d.0" % (k + 1), "targets": ts, "build": build, "deps": [], "standalone": True}
         pkgs.append(p)
         exts.append(p)
     foreign = []
@@ -128,7 +130,8 @@ def gen_ws(rnd):
     for strat in ("root", "some", "all", "root_mp"):
         r = {"cwd": rnd.choice(cwds) if rnd.random() < 0.7 else "ws", "mp": None, "all": strat == "all", "packages": [],
              "check": rnd.random() < 0.35, "mf": rnd.choice([None, None, None, "short", "json", "human", "xml"]),
-             "opts": rnd.choice([[], [], ["--config", "max_width=50"], ["-l"], ["--check"], ["--emit=files"], ["-v", "--files-with-diff"]]),
+             "opts": rnd.choice([[], [], ["--config", "max_width=50"], ["-l"], ["--check"], ["--emit=files"], ["-v", "--files-with-diff"], ["--config-path", "fmt"], ["fmt", "--color", "fmt"]]),
+             "via_cargo": True,
              "quiet": rnd.random() < 0.2, "statuses": {}}
         if rnd.random() < 0.25 or strat == "root_mp":
             r["mp"] = rnd.choice(["ws", "ws"] + [p["dir"] for p in members]) + "/Cargo.toml"
@@ -189,12 +192,12 @@ def write_ws(base, spec):
                     pk = ', package = "%s"' % d["package"] if d["key"] != d["package"] else ""
                     out.append('%s = { path = "%s", version = "%s"%s }' % (d["key"], rel, by_dir[d["to"]]["version"], pk))
         if p["dir"] == "ws":
-            out += ["", "[workspace]", "members = [%s]" % ", ".join('"%s"' % m[3:] for m in spec["members"] if m != "ws")]
+            out += ["", "[workspace]", "members = [%s]" % ", ".join('"%s"' % m[3:] for m in spec["members"] if m != "ws"), 'exclude = ["vendor"]']
         elif p.get("standalone"):
             out += ["", "[workspace]"]
         w(os.path.join(p["dir"], "Cargo.toml"), "\n".join(out) + "\n")
     if spec["virtual"]:
-        w("ws/Cargo.toml", '[workspace]\nresolver = "2"\nmembers = [%s]\n' % ", ".join('"%s"' % m[3:] for m in spec["members"]))
+        w("ws/Cargo.toml", '[workspace]\nresolver = "2"\nmembers = [%s]\nexclude = ["vendor"]\n' % ", ".join('"%s"' % m[3:] for m in spec["members"]))
     if spec["foreign"]:
         w("fw/Cargo.toml", '[workspace]\nresolver = "2"\nmembers = [%s]\n' % ", ".join('"%s"' % m[3:] for m in spec["foreign"]))
     os.makedirs(os.path.join(base, "ws", "src"), exist_ok=True)
@@ -260,7 +263,9 @@ class Scene:
             args += ["-p"] + run["packages"]
         if run["opts"]:
             args += ["--"] + run["opts"]
-        p = subprocess.run([exe] + args, cwd=cwd, env=env, capture_output=True, text=True, timeout=120)
+        # `cargo fmt ARGS` runs `cargo-fmt fmt ARGS`: the subcommand word comes first and only that one is dropped
+        via = ["fmt"] if run.get("via_cargo", True) else []
+        p = subprocess.run([exe] + via + args, cwd=cwd, env=env, capture_output=True, text=True, timeout=120)
         invs = []
         if os.path.exists(logf):
             cur = []
@@ -664,7 +669,7 @@ def run(tier, seed, replay):
     rep.coverage.update({
         "evaluations": len(flat), "distinct_nontrivial": len(nontrivial),
         "workspaces": len(cases), "rustfmt_invocations_observed": n_inv,
-        "rule": "seeded workspaces on disk (1..4 members, virtual or with a root package; lib/bin/example/test/bench/build-script targets with explicit paths and per-target edition overrides; editions 2015..2024; path dependencies between members, to 0..3 packages outside the workspace (two of them often with the same package name), to a member of a foreign workspace, cycles through the workspace and between outside packages; a source file shared by targets of different packages or by lib+bin of one package, reached through a non-canonical ../ path); 4 runs each of the real cargo-fmt (no selection / -p names incl. duplicates and unknown names / --all, also with -p / no selection with --manifest-path) from the workspace root, a member directory or a member's src directory, with or without --manifest-path (absolute or relative), -q, --check, --message-format short|json|human|<invalid>, options after --; $RUSTFMT = recording stand-in with a scripted status per edition (0, codes, SIGSEGV self-kill). Every command line and the exit status are compared with the model's execute and its pieces, and with the property recomputed from the cargo metadata JSON. non-trivial = at least one rustfmt ran and a selection was expected; distinct by hash",
+        "rule": "seeded workspaces on disk (1..4 members, virtual or with a root package; lib/bin/example/test/bench/build-script targets with explicit paths and per-target edition overrides; editions 2015..2024; path dependencies between members, to 0..3 packages outside the workspace or vendored below its root without being members (two of them often with the same package name), to a member of a foreign workspace, cycles through the workspace and between outside packages; a source file shared by targets of different packages or by lib+bin of one package, reached through a non-canonical ../ path); 4 runs each of the real cargo-fmt (no selection / -p names incl. duplicates and unknown names / --all, also with -p / no selection with --manifest-path) from the workspace root, a member directory or a member's src directory, with or without --manifest-path (absolute or relative), -q, --check, --message-format short|json|human|<invalid>, options after --; $RUSTFMT = recording stand-in with a scripted status per edition (0, codes, SIGSEGV self-kill). Every command line and the exit status are compared with the model's execute and its pieces, and with the property recomputed from the cargo metadata JSON. non-trivial = at least one rustfmt ran and a selection was expected; distinct by hash",
         "samples": [{"run": flat[i][1][1], "cmd": flat[i][1][2]["cmd"], "rc": flat[i][1][2]["rc"], "argv": flat[i][1][2]["argv"][:2]} for i in range(0, len(flat), step)][:4],
         "correspondence_disagreements": len(disagreements),
         "traces_validated_against_impl": len(flat) if model is not None else 0,
